@@ -42,4 +42,13 @@ def run(tier, seed):
         elif r.get('confirmed'):
             pack.violation(name, {'native': r})
     F.bounded_file_roundtrip(pack, 'C13')
+    from contracts import bounded_raw_crosscheck as BRX
+    name = 'C13/andes/io/psse.py:read;_parse_*_v33/bounded:raw-file-and-xlsx-file-of-the-same-stock-case-give-the-same-input-parameters'
+    r = native_guard(pack, name, BRX.run)
+    if r is not None:
+        nr, badr = r
+        pack.bounded.append({'function': 'andes.io.psse (tokeniser and record functions) against andes.io.xlsx on the same cases', 'columns_compared': nr,
+                             'kind': 'bounded native: %s' % ', '.join(a for a, _ in BRX.PAIRS), 'counted_as_proved': False})
+        if badr:
+            pack.violation(name, {'bounded': True, 'inputs': badr, 'native_cmd': 'contracts/bounded_raw_crosscheck.py'})
     return pack.finish()
